@@ -156,11 +156,12 @@ func checkDecode(w []byte, _ *ref.PDA) (string, bool, string, string) {
 func c12(r *eng.Run) {
 	K := r.Pick(1, 2)
 	sp := e1Spec{
-		entry:  "Decode*",
-		probe:  func(w []byte) { rjson.ReadNull(w) },
-		probes: []func([]byte){func(w []byte) { rjson.ReadBool(w) }, func(w []byte) { rjson.ReadStringBytes(w, nil) }},
-		check:  checkDecode,
-		digSat: r.Pick(4, 23),
+		handWritten: true,
+		entry:       "Decode*",
+		probe:       func(w []byte) { rjson.ReadNull(w) },
+		probes:      []func([]byte){func(w []byte) { rjson.ReadBool(w) }, func(w []byte) { rjson.ReadStringBytes(w, nil) }},
+		check:       checkDecode,
+		digSat:      r.Pick(4, 23),
 		// scalars only: literals, numbers, strings at top level (the union of the node sets of
 		// the readers and of the null machine)
 		alive: func(w []byte, a *ref.PDA) bool {
